@@ -142,6 +142,20 @@ template <> struct Describe<std::any> {
         for (auto& pr : probes()) if (pr.sany(a, d)) break;
         return d; }
 };
+// a user-declared Kleene event type (trigger 'anyu' of the corpus): an 'any' of the back-end's flavour behind a class of our own
+#if defined(VCFG_MP11)
+typedef std::any UAnyBase;
+#else
+typedef boost::any UAnyBase;
+#endif
+struct UAny : UAnyBase {
+    UAny() {}
+    UAny(const UAnyBase& b) : UAnyBase(b) {}
+    template <class T, class = typename std::enable_if<!std::is_base_of<UAnyBase, typename std::decay<T>::type>::value>::type>
+    UAny(T const& t) : UAnyBase(t) {}
+};
+template <> struct Describe<UAny> {
+    static EvDesc get(const UAny& a, int d) { return Describe<UAnyBase>::get(static_cast<const UAnyBase&>(a), d); } };
 #if !defined(VCFG_MP11)
 template <class S, class E> struct Describe<msm::back::direct_entry_event<S, E>> {
     static EvDesc get(const msm::back::direct_entry_event<S, E>& e, int d) { return Describe<E>::get(e.m_event, d); } };
@@ -256,3 +270,7 @@ struct MDef : msm::front::state_machine_def<Derived>, SerOpt<SER> {
 };
 
 } // namespace vrt
+
+namespace boost { namespace msm {
+template <> struct is_kleene_event<vrt::UAny> : std::true_type {};
+} }
